@@ -96,7 +96,10 @@ def djs_maskinterp(yval, mask, xval=None, axis=None, const=False):
             raise ValueError('Must set axis if yval has more than one dimension.')
         if axis < 0 or axis > ndim-1 or axis - int(axis) != 0:
             raise ValueError('Invalid axis value.')
-        ynew = np.zeros(yval.shape, dtype=yval.dtype)
+        #
+        # Interpolated values are not integers, even if the image is.
+        #
+        ynew = np.zeros(yval.shape, dtype=(yval.dtype if np.issubdtype(yval.dtype, np.inexact) else np.float64))
         if ndim == 2:
             if xval is None:
                 if axis == 0:
